@@ -136,7 +136,8 @@ fn remove_in_class<Z, M>(
         let (entry, remove) = remove_in_class(subnode, name, level - 1);
         if remove {
             node.children.remove(&name[level - 1]);
-            (entry, node.children.is_empty())
+            // This node can go too only if it holds no entry of its own.
+            (entry, node.children.is_empty() && node.data.is_none())
         } else {
             (entry, false)
         }
